@@ -1004,3 +1004,112 @@ Proof.
     destruct Hfm as [F1 [_ [F3 _]]]. apply (proto6_no_udp_flow v6); assumption.
 Qed.
 Print Assumptions gro_tcp_segments_no_udp_flow.
+
+(* ----------------------------- theorem: the order clause, restricted to the datagrams the coalescer considers *)
+
+Lemma filter_filter {A} (f g : A -> bool) l : filter f (filter g l) = filter (fun x => g x && f x) l.
+Proof. induction l as [|x l IH]; cbn [filter]; [reflexivity|]. destruct (g x); cbn [filter andb]; [destruct (f x)|]; rewrite IH; reflexivity. Qed.
+Lemma filter_map_comm {A B} (f : A -> B) (g : B -> bool) l : filter g (map f l) = map f (filter (fun x => g (f x)) l).
+Proof. induction l as [|x l IH]; cbn [filter map]; [reflexivity|]. destruct (g (f x)); cbn [map]; rewrite IH; reflexivity. Qed.
+Lemma filter_flat_map {A B} (g : B -> bool) (F : A -> list B) l : filter g (flat_map F l) = flat_map (fun x => filter g (F x)) l.
+Proof. induction l as [|x l IH]; cbn [flat_map]; [reflexivity|]. rewrite filter_app, IH. reflexivity. Qed.
+Lemma filter_pair {A B C} (cs : A -> C) (cm : B -> C) (g : A -> bool) (P : B -> bool) : forall S M,
+  map cs S = map cm M -> map g S = map P M -> map cs (filter g S) = map cm (filter P M).
+Proof.
+  induction S as [|s S IH]; intros [|m M] H1 H2; cbn [map] in *; try discriminate; [reflexivity|].
+  inversion H1. inversion H2. cbn [filter]. rewrite <- H4. destruct (g s); cbn [map]; [f_equal; [assumption|]|]; apply IH; assumption.
+Qed.
+Lemma map_rel {A B C D} (f : A -> C) (h : B -> C) (g : A -> D) (P : B -> D) : forall S M,
+  (forall s m, In m M -> f s = h m -> g s = P m) -> map f S = map h M -> map g S = map P M.
+Proof.
+  induction S as [|s S IH]; intros [|m M] Hr H1; cbn [map] in *; try discriminate; [reflexivity|].
+  inversion H1. f_equal; [apply Hr; [left; reflexivity|assumption]|]. apply IH; [|assumption]. intros s' m' Hm'. apply Hr. right. exact Hm'.
+Qed.
+Lemma filter_nil {A} (f : A -> bool) l : (forall x, In x l -> f x = false) -> filter f l = [].
+Proof. induction l as [|x l IH]; intros H; cbn [filter]; [reflexivity|]. rewrite (H x) by (left; reflexivity). apply IH. intros y Hy. apply H. right. exact Hy. Qed.
+Lemma lists_eqb_refl l : lists_eqb l l = true.
+Proof. induction l as [|x l IH]; cbn [lists_eqb]; [reflexivity|]. rewrite list_eqb_refl. exact IH. Qed.
+
+Definition gk (k : list N) (x : list N) : bool := Check.keep_eligible x && in_flow k x.
+Lemma gk_eligible k x : Check.udp_eligible x = true -> gk k x = list_eqb k (mkey x).
+Proof. intros E. unfold gk, Check.keep_eligible, in_flow. rewrite (eligible_udp_flow _ E), E. reflexivity. Qed.
+Lemma gk_pk inp k m : gk k (pk inp m) = PK inp k m.
+Proof.
+  unfold PK. destruct (Check.udp_eligible (pk inp m)) eqn:E; [rewrite gk_eligible by exact E; reflexivity|].
+  unfold gk, Check.keep_eligible, in_flow. destruct (udp_flow (pk inp m)); [rewrite E; reflexivity|reflexivity].
+Qed.
+Lemma gk_no_flow k x : udp_flow x = None -> gk k x = false.
+Proof. intros E. unfold gk, in_flow. rewrite E. apply andb_false_r. Qed.
+
+(* the kinds of the merges recorded in the trace of handleGRO *)
+Lemma gro_trace_kinds : forall (canUDP : bool) (offset : N) (bufs : list buf),
+  let s := handle_gro canUDP offset bufs in
+  s_err s = false ->
+  forall i j p, nth_error (s_trace s) i = Some (Coalesced j p) ->
+    (Check.udp_eligible (pk bufs (N.of_nat i)) = true /\ Check.udp_eligible (pk bufs j) = true /\
+     mkey (pk bufs (N.of_nat i)) = mkey (pk bufs j)) \/
+    (udp_flow (pk bufs (N.of_nat i)) = None /\ udp_flow (pk bufs j) = None).
+Proof.
+  intros udp off inp s He. subst s. unfold handle_gro in *. rewrite gro_loop_is in *.
+  set (s0 := loop_k udp off inp (length inp)) in *.
+  assert (He0 : s_err s0 = false) by (destruct (s_err s0) eqn:E; [cbn iota in He; congruence|reflexivity]).
+  rewrite He0. cbn [s_trace].
+  apply (k_tr _ _ (loop_kinv udp off inp (length inp) (le_n _) He0)).
+Qed.
+
+Theorem gro_udp_order_restricted : forall (canUDP : bool) (offset : N) (bufs : list buf),
+  let s := handle_gro canUDP offset bufs in
+  s_err s = false ->
+  udp_order_gen Check.keep_eligible bufs (s_tw s) (s_bufs s) = true.
+Proof.
+  intros udp off inp s He.
+  pose proof (gro_bookkeeping udp off inp He) as [Hlen [Hnd [Hbound Htrace]]]. fold s in Hlen, Hnd, Hbound, Htrace.
+  pose proof (gro_trace_kinds udp off inp He) as Hkinds. fold s in Hkinds.
+  unfold udp_order_gen. apply forallb_forall. intros p Hp. apply filter_In in Hp as [_ Hkeep].
+  destruct (udp_flow p) as [k|] eqn:Hf; [|reflexivity].
+  rewrite !filter_filter. fold (gk k).
+  (* per written buffer *)
+  assert (Hper : forall j, In j (s_tw s) ->
+            map canon (filter (gk k) (kernel_segment (b_hdr (get_buf (s_bufs s) j)) (b_pkt (get_buf (s_bufs s) j)))) =
+            map (fun m => canon (pk inp m)) (filter (PK inp k) (members (s_trace s) j))).
+  { intros j Hj. destruct (merged_dec (s_trace s) j) as [Hm|Hm].
+    - destruct (N.eq_dec (v_gso (dec_vhdr (b_hdr (get_buf (s_bufs s) j)))) GSO_UDP_L4) as [Eu|Eu].
+      + pose proof (gro_udp_lossless udp off inp j He Hm Eu) as Hc.
+        destruct (gro_udp_segments_eligible udp off inp j He Hm Eu) as [Hel Hfl]. fold s in Hc, Hel, Hfl.
+        (* every member passes the coalescer's gates *)
+        assert (Hmel : forall m, In m (members (s_trace s) j) -> Check.udp_eligible (pk inp m) = true).
+        { assert (Hother : forall m, In m (members (s_trace s) j) -> m <> j ->
+                    Check.udp_eligible (pk inp m) = true /\ Check.udp_eligible (pk inp j) = true).
+          { intros m Hmm Hne. apply members_spec in Hmm as [->|[q [Hn _]]]; [contradiction|].
+            destruct (Hkinds _ _ _ Hn) as [[H1 [H2 _]]|[H1 _]]; rewrite N2Nat.id in *; [auto|].
+            exfalso. apply (Hfl m); [apply members_spec; right; exists q; split; [exact Hn|]|exact H1].
+            apply nth_error_Some. rewrite Hn. discriminate. }
+          destruct Hm as [q Hq]. apply In_nth_error in Hq as [i Hi].
+          assert (Hi' : In (N.of_nat i) (members (s_trace s) j)).
+          { apply members_spec. right. exists q. rewrite Nat2N.id. split; [exact Hi|]. apply nth_error_Some. rewrite Hi. discriminate. }
+          assert (Hij : N.of_nat i <> j).
+          { intros E. destruct (Htrace i _ Hi) as [_ [_ H1]]. lia. }
+          destruct (Hother _ Hi' Hij) as [_ Hej].
+          intros m Hmm. destruct (N.eq_dec m j) as [->|Hne]; [exact Hej|apply (Hother m Hmm Hne)]. }
+        apply filter_pair; [exact Hc|].
+        eapply map_rel; [|exact Hel]. intros sg m Hmm E. inversion E as [[E1 E2]].
+        rewrite gk_eligible by exact E1. unfold PK. rewrite (Hmel m Hmm), E2. reflexivity.
+      + destruct (gro_tcp_segments_no_udp_flow udp off inp j He Hm Eu) as [Hs Hmm]. fold s in Hs, Hmm.
+        assert (E1 : filter (gk k) (kernel_segment (b_hdr (get_buf (s_bufs s) j)) (b_pkt (get_buf (s_bufs s) j))) = []).
+        { apply filter_nil. intros x Hx. apply gk_no_flow. apply Hs. exact Hx. }
+        assert (E2 : filter (PK inp k) (members (s_trace s) j) = []).
+        { apply filter_nil. intros x Hx. rewrite <- gk_pk. apply gk_no_flow. apply Hmm. exact Hx. }
+        rewrite E1, E2. reflexivity.
+    - destruct (gro_passthrough udp off inp j He Hj Hm) as [Hpp Hz]. fold s in Hpp, Hz.
+      rewrite (members_fresh _ _ Hm). rewrite Hz, kernel_segment_zero, Hpp. cbn [filter]. fold (pk inp j).
+      rewrite gk_pk. destruct (PK inp k j); reflexivity. }
+  assert (E : map canon (filter (gk k) (segments (s_tw s) (s_bufs s))) = map canon (filter (gk k) (map b_pkt inp))).
+  { unfold segments, written. rewrite flat_map_map, filter_flat_map, map_flat_map.
+    rewrite (flat_map_ext_in' _ (fun j => map (fun m => canon (pk inp m)) (filter (PK inp k) (members (s_trace s) j)))) by exact Hper.
+    rewrite <- map_flat_map, <- filter_flat_map.
+    pose proof (gro_udp_order_indices udp off inp k He) as Hidx. fold s in Hidx. rewrite Hidx.
+    pose proof (map_indices b_pkt inp 0 [] eq_refl) as Ei. cbn [app] in Ei. rewrite <- Ei.
+    rewrite filter_map_comm, map_map. f_equal. apply filter_ext. intros m. symmetry. apply gk_pk. }
+  rewrite E. apply lists_eqb_refl.
+Qed.
+Print Assumptions gro_udp_order_restricted.
